@@ -1,11 +1,42 @@
+import Hannibal.Monitor.C01
+import Hannibal.Monitor.C02
+import Hannibal.Monitor.C03
+import Hannibal.Monitor.C04
+import Hannibal.Monitor.C05
+import Hannibal.Monitor.C06
+import Hannibal.Monitor.C07
+import Hannibal.Monitor.C10
+import Hannibal.Monitor.C11
 import Hannibal.Monitor.C12
+import Hannibal.Monitor.C13
+import Hannibal.Monitor.C14
+import Hannibal.Monitor.C15
+import Hannibal.Monitor.C17
 /- Registry: property id → monitor run on one actor's labels (index of first violation). -/
 namespace Hannibal.Driver
 open Hannibal
 
-def runMonitor (pid : String) (cfg : Cfg) (ls : List Label) : Option (Option Nat) :=
+def ff {σ : Type} (m : Mon σ) (ls : List Label) : Option Nat := m.firstFail m.init 0 ls
+
+def runMonitor (pid : String) (c : MonCtx) (ls : List Label) : Option (Option Nat) :=
   match pid with
-  | "C12" => some ((monC12 cfg.cap).firstFail (monC12 cfg.cap).init 0 ls)
+  | "C01" => some (ff (monC01 c) ls)
+  | "C02" => some (ff (monC02 c) ls)
+  | "C03" => some (ff (monC03 c) ls)
+  | "C04" => some (ff (monC04 c) ls)
+  | "C05" => some (ff (monC05 c) ls)
+  | "C06" => some (ff (monC06 c) ls)
+  | "C07" => some (ff (monC07 c) ls)
+  | "C10" => some (ff (monC10 c) ls)
+  | "C11" => some (ff (monC11 c) ls)
+  | "C12" => some (ff (monC12 c.cfg.cap) ls)
+  | "C13" => some (ff (monC13 c) ls)
+  | "C14" => some (ff (monC14 c) ls)
+  | "C15" => some (ff (monC15 c) ls)
+  | "C17" => some (ff (monC17 c) ls)
   | _ => none
+
+def allMonitors : List String :=
+  ["C01", "C02", "C03", "C04", "C05", "C06", "C07", "C10", "C11", "C12", "C13", "C14", "C15", "C17"]
 
 end Hannibal.Driver
